@@ -4,6 +4,11 @@
 //   POST <sexp of the templates/functions handed on, sorted by name> | panic
 //   REP  <sorted reports>
 //   PIPE <ok|panic ...>   (into_cfg + into_ssa of everything handed on)
+//   LIB  <mode> TAB LIBREP <reports>   and   PROG <mode> ... TAB PROGREP <reports>: what the
+//        REAL `parser::parse_files` hands on for the same text written to a file, once as it
+//        is (no main component: `ParseResult::Library`) and once with a main component
+//        appended (`ParseResult::Program`): `<mode>` is `library`/`program`, followed by the
+//        definitions in the POST format (`=` when they are literally the POST field)
 // separated by tabs.  Input line: the source with `\n` and `\\` escaped.
 // The printer matches every constructor and every field explicitly (no `..` on
 // children), so that a sugar node anywhere in a tree shows up in the text.
@@ -324,6 +329,59 @@ fn report_line(r: &Report) -> String {
     o
 }
 
+fn show_defs(
+    templates: &HashMap<String, TemplateData>,
+    functions: &HashMap<String, FunctionData>,
+) -> String {
+    let mut tnames: Vec<&String> = templates.keys().collect();
+    tnames.sort();
+    let mut fnames: Vec<&String> = functions.keys().collect();
+    fnames.sort();
+    let mut post = String::from("(out");
+    for n in &tnames {
+        post.push(' ');
+        post.push_str(&template_line(n, &templates[*n], true));
+    }
+    for n in &fnames {
+        post.push(' ');
+        post.push_str(&function_line(n, &functions[*n]));
+    }
+    post.push(')');
+    post
+}
+
+fn show_reports(reports: &ReportCollection) -> String {
+    let mut reps: Vec<String> = reports.iter().map(report_line).collect();
+    reps.sort();
+    format!("(reports{}{})", if reps.is_empty() { "" } else { " " }, reps.join(" "))
+}
+
+// The whole front end on a file holding `src`: `parser::parse_files` itself (file stack,
+// parse_file, ProgramArchive::new / TemplateLibrary::new, the desugaring step and the
+// assignment of its results), not the hook.
+fn front_end(src: &str, tag: &str) -> (String, String) {
+    let path = std::env::temp_dir().join(format!("c18-{}-{}.circom", std::process::id(), tag));
+    if std::fs::write(&path, src).is_err() {
+        return ("io-error".to_string(), "-".to_string());
+    }
+    let files = vec![path.clone()];
+    let result = guarded(|| {
+        parser::parse_files(&files, &[], &program_analysis::config::COMPILER_VERSION)
+    });
+    let _ = std::fs::remove_file(&path);
+    match result {
+        None => ("panic".to_string(), "-".to_string()),
+        Some(parser::ParseResult::Program(archive, reports)) => (
+            format!("program {}", show_defs(&archive.templates, &archive.functions)),
+            show_reports(&reports),
+        ),
+        Some(parser::ParseResult::Library(library, reports)) => (
+            format!("library {}", show_defs(&library.templates, &library.functions)),
+            show_reports(&reports),
+        ),
+    }
+}
+
 fn unescape(line: &str) -> String {
     let mut o = String::new();
     let mut it = line.chars();
@@ -453,7 +511,33 @@ fn run(line: &str) -> String {
         });
         pipe.push(format!("{}={}", n, r.unwrap_or("panic")));
     }
-    format!("PRE\t{}\tPOST\t{}\tREP\t{}\tPIPE\t{}", pre, post, reps, if pipe.is_empty() { "-".to_string() } else { pipe.join(",") })
+    // `=`: the definitions are, character for character, those of the POST field
+    let same = |x: String| -> String {
+        match x.split_once(' ') {
+            Some((mode, defs)) if defs == post => format!("{} =", mode),
+            _ => x,
+        }
+    };
+    let (lib, librep) = front_end(&src, "l");
+    let lib = same(lib);
+    let with_main = if src.contains("component main") {
+        src.clone()
+    } else {
+        format!("{}\ncomponent main = A0();\n", src)
+    };
+    let (prog, progrep) = front_end(&with_main, "p");
+    let prog = same(prog);
+    format!(
+        "PRE\t{}\tPOST\t{}\tREP\t{}\tPIPE\t{}\tLIB\t{}\tLIBREP\t{}\tPROG\t{}\tPROGREP\t{}",
+        pre,
+        post,
+        reps,
+        if pipe.is_empty() { "-".to_string() } else { pipe.join(",") },
+        lib,
+        librep,
+        prog,
+        progrep
+    )
 }
 
 fn main() {
